@@ -1,4 +1,414 @@
-/-! oracle driver for the cli engine (to be written) -/
+import Spok.Wire
+import Spok.App
+import Spok.Judge.Cli
+/-! oracle driver for the cli engine (C09, C19, C20): reads `<case> | <what the real binary did>`, answers
+    `<what the model does> || <judge verdicts on what the binary did>`.
+
+    The model side replays the sequence of invocations over a tiny file-system state (which spokfiles and
+    `.gitignore`s exist, the text of the spokfile) using `Spok.App`; the *results of commands* are an oracle
+    argument taken from the side-effect log (which tasks really executed, in which order), the scripted
+    command outcomes come from the case.  `--fmt` is predicted with the printer model of the syntax engine. -/
 namespace Spok.Oracle.Cli
-def handle (line : String) : String := "TODO " ++ line
+open Spok Spok.App Spok.Judge.Cli
+
+/-! ## wire helpers: byte strings travel hex encoded; inside they are Latin-1 `String`s (one char per byte) -/
+
+def unhexS (h : String) : Option String :=
+  (Wire.unhex h).map fun bs => String.ofList (bs.map fun b => Char.ofNat b.toNat)
+
+def bytesOf (s : String) : List UInt8 := s.toList.map fun c => UInt8.ofNat c.toNat
+def hexS (s : String) : String := Wire.hexBytes (bytesOf s)
+
+def joinOr (xs : List String) (sep : String) : String := if xs.isEmpty then "-" else sep.intercalate xs
+def sortS (xs : List String) : List String := xs.mergeSort (fun a b => decide (a ≤ b))
+
+abbrev R := StateT (List String) Option
+
+def word : R String := fun ws => match ws with
+  | w :: r => some (w, r)
+  | [] => none
+def num : R Nat := do
+  let w ← word
+  match w.toNat? with
+  | some n => pure n
+  | none => StateT.lift none
+def hexw : R String := do
+  let w ← word
+  match unhexS w with
+  | some s => pure s
+  | none => StateT.lift none
+def lit (s : String) : R Unit := do
+  let w ← word
+  if w == s then pure () else StateT.lift none
+def rep {α} (p : R α) : Nat → R (List α)
+  | 0 => pure []
+  | n + 1 => do let x ← p; let xs ← rep p n; pure (x :: xs)
+def many {α} (p : R α) : R (List α) := do let n ← num; rep p n
+
+structure Ent where
+  path : String
+  kind : String
+  content : String
+deriving Repr
+
+structure VarSpec where
+  name : String
+  join : Bool
+  val : String
+  args : List String
+deriving Repr
+
+structure StepSpec where
+  cwd : String
+  flags : List String
+  args : List String
+  edits : List (String × String)
+deriving Repr
+
+structure Case where
+  tree : List Ent
+  proj : String
+  parses : Bool
+  loads : Bool
+  dotenv : String
+  vars : List VarSpec
+  tasks : List TaskSpec
+  steps : List StepSpec
+deriving Repr
+
+def undash (s : String) : String := if s == "-" then "" else s
+
+def pEnt : R Ent := do
+  let p ← word; let k ← word; let _ ← word; let c ← hexw
+  pure ⟨p, k, c⟩
+
+def pVar : R VarSpec := do
+  let n ← word
+  let k ← word
+  if k == "S" then do let v ← hexw; pure ⟨n, false, v, []⟩
+  else if k == "J" then do let as ← many hexw; pure ⟨n, true, "", as⟩
+  else StateT.lift none
+
+def pCmd : R CmdSpec := do
+  let s ← hexw; let i ← hexw; let o ← hexw; let e ← hexw; let st ← num
+  pure ⟨s, i, o, e, st⟩
+
+def pTask : R TaskSpec := do
+  let n ← word; let d ← hexw
+  let td ← many word
+  let fd ← many hexw
+  let cs ← many pCmd
+  pure ⟨n, d, td, fd, cs⟩
+
+def pStep : R StepSpec := do
+  let cwd ← word
+  let f ← word
+  let args ← many word
+  let edits ← many (do let p ← word; let c ← hexw; pure (p, c))
+  pure ⟨cwd, if f == "-" then [] else f.splitOn ",", args, edits⟩
+
+def pCase : R Case := do
+  lit "T"; let tree ← many pEnt
+  lit "P"; let proj ← word
+  lit "W"; let p ← word; let l ← word; let de ← word
+  lit "V"; let vars ← many pVar
+  lit "K"; let tasks ← many pTask
+  lit "S"; let steps ← many pStep
+  pure ⟨tree, undash proj, p == "1", l == "1", de, vars, tasks, steps⟩
+
+def parseCase (s : String) : Option Case :=
+  match pCase ((s.splitOn " ").filter (· ≠ "")) with
+  | some (c, []) => some c
+  | _ => none
+
+/-! ## the implementation's observation -/
+
+def sectionsOf (impl : String) : List (String × List String) :=
+  (impl.splitOn " ; ").map fun sec =>
+    let sec := sec.trimAscii.toString
+    let name := (sec.splitOn " ").headD ""
+    let body := (sec.drop name.length).toString.trimAscii.toString
+    (name, (body.splitOn " / ").map fun v => v.trimAscii.toString)
+
+def sectAt (secs : List (String × List String)) (name : String) (i : Nat) : String :=
+  match secs.find? (·.1 == name) with
+  | some (_, vs) => vs.getD i "-"
+  | none => "-"
+
+def commaList (s : String) : List String := if s == "-" || s == "" then [] else s.splitOn ","
+
+def parseLog (s : String) : List (Nat × Nat) :=
+  (commaList s).map fun m =>
+    match m.splitOn "." with
+    | [a, b] => (a.toNat?.getD 9999, b.toNat?.getD 9999)   -- an unknown marker is a task that does not exist
+    | _ => (9999, 9999)
+
+def parseDiff (s : String) : List (String × String) :=
+  (commaList s).map fun e =>
+    match (e.splitOn ":").reverse with
+    | k :: rest => (":".intercalate rest.reverse, k)
+    | [] => (e, "?")
+
+def pJCmd : R CmdResult := do
+  let c ← hexw; let o ← hexw; let e ← hexw; let s ← num
+  pure ⟨c, o, e, s⟩
+
+def pJTask : R Result := do
+  lit "T"
+  let n ← hexw; let sk ← word; let cs ← many pJCmd
+  pure ⟨n, cs, sk == "1"⟩
+
+partial def pJTasks : R (List Result) := fun ws =>
+  match ws with
+  | [] => some ([], [])
+  | _ => match pJTask ws with
+    | some (t, rest) => match pJTasks rest with
+      | some (ts, r) => some (t :: ts, r)
+      | none => none
+    | none => none
+
+def parseJson (s : String) : JsonObs :=
+  if s == "-" then .none
+  else if s == "bad" then .bad
+  else match pJTasks ((s.splitOn " ").filter (· ≠ "")) with
+    | some (rs, []) => .doc rs
+    | _ => .bad
+
+def rowsOf (s : String) : List String := (commaList s).map fun h => (unhexS h).getD "?"
+
+/-! ## the model's little file system -/
+
+structure FS where
+  files : List (String × String)
+  dirs : List String
+deriving Repr
+
+def FS.file? (fs : FS) (p : String) : Option String := (fs.files.find? (·.1 == p)).map (·.2)
+def FS.isFile (fs : FS) (p : String) : Bool := (fs.file? p).isSome
+def FS.exists (fs : FS) (p : String) : Bool := fs.isFile p || fs.dirs.contains p
+def FS.write (fs : FS) (p c : String) : FS :=
+  if fs.isFile p then { fs with files := fs.files.map fun (q, d) => if q == p then (q, c) else (q, d) }
+  else { fs with files := fs.files ++ [(p, c)] }
+
+def ancestors : Nat → String → List String
+  | 0, d => [d]
+  | n + 1, d => if d == "." then ["."] else d :: ancestors n (dirOf d)
+
+/-- `file.Find`: from the working directory upwards to `$HOME` (the sandbox root), regular files only -/
+def findSpokfile (fs : FS) (cwd : String) : Option String :=
+  ((ancestors 16 cwd).map (joinPath · "spokfile")).find? fs.isFile
+
+def optionsOf (flags : List String) : Options :=
+  let has (a b : String) := flags.contains a || flags.contains b
+  { init := flags.contains "init", quiet := has "quiet" "q", debug := flags.contains "debug", json := has "json" "j",
+    fmt := flags.contains "fmt", vars := flags.contains "vars", clean := has "clean" "c", «show» := has "show" "s",
+    force := has "force" "f", spokfileGiven := flags.any (·.startsWith "spokfile=") }
+
+def givenSpokfile (flags : List String) : Option String :=
+  (flags.find? (·.startsWith "spokfile=")).map fun f => (f.drop 9).toString
+
+def baseOf (p : String) : String := (p.splitOn "/").getLastD ""
+
+/-- world facts and the spokfile in use, for one step -/
+def worldOf (c : Case) (fs : FS) (st : StepSpec) (cwdHas : Bool) : World × Option String :=
+  let o := optionsOf st.flags
+  let sp : Option String := match givenSpokfile st.flags with
+    | some p => some p
+    | none => findSpokfile fs st.cwd
+  let isProj := sp == some (joinPath c.proj "spokfile") && c.proj != ""
+  let dotenvOk := match sp with
+    | some p => !(fs.isFile (joinPath (dirOf p) ".env") && isProj && c.dotenv == "b")
+    | none => true
+  let w : World :=
+    { cwdSpokfile := cwdHas
+      found := o.spokfileGiven || sp.isSome
+      nameOk := match sp with | some p => baseOf p == "spokfile" | none => true
+      dotenvOk := dotenvOk
+      readable := match sp with | some p => fs.isFile p | none => true
+      parses := if isProj then c.parses else true
+      loads := if isProj then c.loads else true
+      hasDefault := c.tasks.any (·.name == "default")
+      hasClean := c.tasks.any (·.name == "clean") }
+  (w, sp)
+
+def evalVars (c : Case) (cwd : String) : List (String × String) :=
+  c.vars.map fun v =>
+    if v.join then (v.name, "@/" ++ (if cwd == "." then "" else cwd ++ "/") ++ "/".intercalate v.args)
+    else (v.name, v.val)
+
+/-! ## marker scanning (what the harness extracts from human-readable output) -/
+
+def takeDigits : List Char → List Char × List Char
+  | c :: cs => if c.isDigit then let (d, r) := takeDigits cs; (c :: d, r) else ([], c :: cs)
+  | [] => ([], [])
+
+/-- all non-overlapping `o<digits>x<digits>` in a text, left to right -/
+def oMarks : Nat → List Char → List String
+  | 0, _ => []
+  | _, [] => []
+  | n + 1, c :: cs =>
+    if c == 'o' then
+      let (d1, r1) := takeDigits cs
+      match d1, r1 with
+      | _ :: _, 'x' :: r2 =>
+        let (d2, r3) := takeDigits r2
+        if d2.isEmpty then oMarks n cs
+        else String.ofList ('o' :: d1 ++ 'x' :: d2) :: oMarks n r3
+      | _, _ => oMarks n cs
+    else oMarks n cs
+
+def oMarksOf (s : String) : List String := oMarks (s.length + 1) s.toList
+
+def isEMark (l : String) : Bool :=
+  match l.toList with
+  | 'e' :: cs =>
+    let (d1, r1) := takeDigits cs
+    match d1, r1 with
+    | _ :: _, 'x' :: r2 =>
+      let (d2, r3) := takeDigits r2
+      !d2.isEmpty && (r3.isEmpty || (r3.length == 1 && r3.all Char.isLower))
+    | _, _ => false
+  | _ => false
+
+/-! ## one step of the model -/
+
+structure StepOut where
+  exit : String
+  named : String
+  wr : String
+  out : String
+  js : String
+  om : String
+  tr : String
+  vr : String
+  em : String
+
+def rowStr (r : String × String) : String := hexS (rowOf r.1 r.2)
+
+def jsCanon (c : Ctx) (rs : List Result) : String :=
+  let ncmds (n : String) : Nat := match findTask c n with | some t => t.cmds.length | none => 1
+  let xs := (rs.filter (fun r => !r.cmds.isEmpty)).map fun r =>
+    " ".intercalate (["X", hexS r.task, if r.skipped then "1" else "0", toString r.cmds.length] ++
+      r.cmds.flatMap fun k => [hexS k.cmd, hexS k.stdout, hexS k.stderr, toString k.status])
+  let rest := rs.filter (fun r => r.cmds.isEmpty)
+  let zs := (rest.filter fun r => ncmds r.task == 0).map (hexS ·.task)
+  let ss := (rest.filter fun r => ncmds r.task != 0 && r.skipped).map (hexS ·.task)
+  let ns := (rest.filter fun r => ncmds r.task != 0 && !r.skipped).map (hexS ·.task)
+  " ".intercalate (xs ++ ["S " ++ joinOr (sortS ss) ",", "Z " ++ joinOr (sortS zs) ",", "N " ++ joinOr (sortS ns) ","])
+
+/-- the results `SpokFile.Run` returns, given which tasks the log shows executing (oracle argument): an executed
+    task ran ALL its commands (`Task.Run` does not stop at a failure); the other tasks of the run were skipped
+    (or had no commands: indistinguishable in the log, canonicalised apart as `Z`) -/
+def resultsFrom (c : Ctx) (req : List String) (log : List (Nat × Nat)) : List Result :=
+  let executed := (groupLog log).filterMap fun g => taskAt c g.1
+  let ex : List Result := executed.map fun t => ⟨t.name, t.cmds.map expectedCmd, false⟩
+  let others := (closure c req).filter fun n => !(executed.any (·.name == n))
+  ex ++ others.map fun n => ⟨n, [], match findTask c n with | some t => !t.cmds.isEmpty | none => true⟩
+
+def lines (s : String) : List String := (s.splitOn "\n").filter (· ≠ "")
+
+def modelStep (cs : Case) (fs : FS) (st : StepSpec) (log : List (Nat × Nat)) : StepOut × FS × Ctx :=
+  let fs := st.edits.foldl (fun f (p, c) => f.write p c) fs
+  let o := optionsOf st.flags
+  let (w, sp) := worldOf cs fs st (fs.exists (joinPath st.cwd "spokfile"))
+  let ctx : Ctx := { tasks := cs.tasks, vars := evalVars cs st.cwd, opts := o, args := st.args, world := w, cwd := st.cwd, spokfile := sp }
+  let a := action o st.args w
+  let req := requested a
+  let planOk := req.all fun n => (findTask ctx n).isSome
+  let ran : Option (List Result) := if a.isRun && planOk then some (resultsFrom ctx req log) else none
+  let exit := exitOf o a ran
+  let named :=
+    if (failedTasks ctx log).isEmpty then "-"
+    else match ran with
+      | some rs => (match (outcome o rs).failingTask with | some t => t | none => "none")
+      | none => "none"
+  -- writes outside the cache directory, and the state afterwards
+  let (wr, fs') : List String × FS := match a with
+    | .initialise =>
+      let sf := joinPath st.cwd "spokfile"
+      let gi := joinPath st.cwd ".gitignore"
+      ([gi ++ (if fs.isFile gi then ":app" else ":new"), sf ++ ":new"], (fs.write sf "demo").write gi "ignore")
+    | .fmt =>
+      (match sp with
+       | some p =>
+         let old := (fs.file? p).getD ""
+         let pr := parse (bytesOf old)
+         (match pr.fail with
+          | none =>
+            let new := String.ofList ((flat (format pr.tree)).map fun b => Char.ofNat b.toNat)
+            if new == old then ([], fs)
+            else ([p ++ (if old.length < new.length && old.toList.isPrefixOf new.toList then ":app" else ":mod")], fs.write p new)
+          | some _ => (["?model-parse-failed"], fs))
+       | none => (["?no-spokfile"], fs))
+    | _ => ([], fs)
+  let out := stdoutOf o a (cs.tasks.map fun t => (t.name, t.doc)) ctx.vars ran
+  let streamOn := !nullStream o
+  let executedCmds : List CmdSpec := match ran with
+    | some _ => ((groupLog log).filterMap fun g => taskAt ctx g.1).flatMap (·.cmds)
+    | none => []
+  let em := if streamOn then executedCmds.flatMap (fun k => (lines k.err).filter isEMark) else []
+  let so : StepOut := match out with
+    | .empty => ⟨toString exit, named, joinOr (sortS wr) ",", "empty", "-", "-", "-", "-", joinOr em ","⟩
+    | .text =>
+      let om := if a.isRun then executedCmds.flatMap (fun k => oMarksOf k.interp ++ oMarksOf k.out) else []
+      ⟨toString exit, named, joinOr (sortS wr) ",", "text", "-", joinOr om ",", "-", "-", joinOr em ","⟩
+    | .taskRows rows => ⟨toString exit, named, joinOr (sortS wr) ",", "text", "-", "-", joinOr (rows.map rowStr) ",", "-", joinOr em ","⟩
+    | .varRows rows => ⟨toString exit, named, joinOr (sortS wr) ",", "text", "-", "-", "-", joinOr (rows.map rowStr) ",", joinOr em ","⟩
+    | .json doc =>
+      let js := match decode doc with
+        | some rs => jsCanon ctx rs
+        | none => "?undecodable"
+      ⟨toString exit, named, joinOr (sortS wr) ",", "json", js, "-", "-", "-", joinOr em ","⟩
+  (so, fs', ctx)
+
+/-! ## the whole line -/
+
+def initialFS (c : Case) : FS :=
+  { files := (c.tree.filter (·.kind == "f")).map (fun e => (e.path, e.content)),
+    dirs := (c.tree.filter (·.kind == "d")).map (·.path) }
+
+structure Acc where
+  fs : FS
+  outs : List StepOut
+  prevFailed : List String
+  v09 : Verdict
+  v19 : Verdict
+  v20 : Verdict
+
+def runCase (c : Case) (secs : List (String × List String)) : Acc :=
+  let idx := List.range c.steps.length
+  (c.steps.zip idx).foldl (fun acc (st, i) =>
+    let log := parseLog (sectAt secs "LOG" i)
+    let (so, fs', ctx) := modelStep c acc.fs st log
+    -- the judges look at the implementation's observation; the world they are told about is the generator's,
+    -- except "is there a spokfile entry in the working directory", which is read off the real snapshot
+    let ctxJ : Ctx := { ctx with world := { ctx.world with cwdSpokfile := sectAt secs "CWDSF" i == "1" } }
+    let ob : Obs :=
+      { exit := (sectAt secs "EXIT" i).toInt?.getD 0
+        outEmpty := sectAt secs "OUT" i == "empty"
+        json := parseJson (sectAt secs "JSON" i)
+        taskRows := rowsOf (sectAt secs "TR" i)
+        varRows := rowsOf (sectAt secs "VR" i)
+        log := log
+        diff := parseDiff (sectAt secs "DIFF" i)
+        report := (unhexS (sectAt secs "REPORT" i)).getD "" }
+    { fs := fs', outs := acc.outs ++ [so], prevFailed := failedTasks ctxJ log,
+      v09 := acc.v09.both (c09 ctxJ acc.prevFailed ob),
+      v19 := acc.v19.both (c19 ctxJ ob),
+      v20 := acc.v20.both (c20 ctxJ ob) })
+    { fs := initialFS c, outs := [], prevFailed := [], v09 := .na, v19 := .na, v20 := .na }
+
+def handle (line : String) : String :=
+  match line.splitOn " | " with
+  | [inp, impl] =>
+    match parseCase inp with
+    | none => "BAD-CASE || C09=FAIL C19=FAIL C20=FAIL"
+    | some c =>
+      let secs := sectionsOf impl
+      let acc := runCase c secs
+      let j (f : StepOut → String) := " / ".intercalate (acc.outs.map f)
+      s!"EXIT {j (·.exit)} ; NAMED {j (·.named)} ; WR {j (·.wr)} ; OUT {j (·.out)} ; JS {j (·.js)} ; OM {j (·.om)} ; TR {j (·.tr)} ; VR {j (·.vr)} ; EM {j (·.em)}" ++
+      s!" || C09={acc.v09.str} C19={acc.v19.str} C20={acc.v20.str}"
+  | _ => "BAD-LINE || C09=FAIL C19=FAIL C20=FAIL"
+
 end Spok.Oracle.Cli
